@@ -47,6 +47,7 @@ from ..core import (AnalysisError, call_name, const_str, find_calls, kwarg,
                     last_attr, names_in, short, txt, walk)
 from .. import lib_C04 as L
 from .. import lib_C08 as H
+from ..normalize import inline_helpers
 
 ASSUMPTIONS = [
     "NOT decided: value identity over real HDF5 files; decided is the copy "
@@ -211,10 +212,33 @@ class Recorder:
         self.calls = []
 
 
+class MaskedStats:
+    """np.ma.masked_invalid(data): provider of min / max / mean tokens (the
+    values of the statistics belong to C20)"""
+    _strict_attrs = True
+
+    def __init__(self, data):
+        if not isinstance(data, (H.H5Dataset, H.H5Data)):
+            raise L.ModelFault("TypeError", "masked_invalid of "
+                               f"{type(data).__name__}")
+
+    def min(self, *a, **k):
+        return "min(masked data)"
+
+    def max(self, *a, **k):
+        return "max(masked data)"
+
+    def mean(self, *a, **k):
+        return "mean(masked data)"
+
+
 def copier_env(repo, rec):
     it = L.Interp(repo)
     np_ = L.NPModel({"nanmin": NPStat("nanmin"), "nanmax": NPStat("nanmax"),
-                     "nanmean": NPStat("nanmean")})
+                     "nanmean": NPStat("nanmean"),
+                     "min": NPStat("min"), "max": NPStat("max"),
+                     "ma": L.namespace("np.ma", masked_invalid=MaskedStats,
+                                       masked_array=MaskedStats)})
 
     def basin_definition_copy(src_h5file, dst_h5file, features_iter):
         rec.calls.append(("basin_definition_copy", src_h5file, dst_h5file,
@@ -1444,7 +1468,8 @@ def r88(ctx, repo):
         ctx.ob("R8.8", ok, "both skip options reach the filter helper" if ok
                else f"skip options passed as initial={txt(ini)}, "
                f"final={txt(fin)}", node=sk[0], label="skip options")
-    sh = repo.func(COMMON, "skip_empty_image_events")
+    sh = inline_helpers(repo, COMMON, repo.func(
+        COMMON, "skip_empty_image_events"))
     stores = [s for s in walk(sh) if isinstance(s, ast.Assign) and any(
         "filter.manual" in txt(t) for t in s.targets)]
     ok = bool(stores) and all(txt(s.value) == "False" for s in stores) \
@@ -2203,4 +2228,38 @@ TWINS = list(TWINS) + [
      ('        if (("image" in ds and ds.format == "tdms"',
       '        has_image = "image" in ds\n'
       '        if ((has_image and ds.format == "tdms"')),
+]
+
+# round-3 refactoring campaign/refactorings_round3/C09/refactor5
+TWINS = list(TWINS) + [
+    ("boundary filter: exclusion extracted into a module-level helper",
+     COMMON,
+     lambda s: s.replace(
+         "def skip_empty_image_events(",
+         "def _exclude_event(ds, index):\n"
+         "    \"\"\"Exclude the event at `index`\"\"\"\n"
+         "    ds.filter.manual[index] = False\n"
+         "    ds.apply_filter()\n\n\n"
+         "def skip_empty_image_events(").replace(
+         "            ds.filter.manual[0] = False\n"
+         "            ds.apply_filter()\n",
+         "            _exclude_event(ds, 0)\n").replace(
+         "                        ds.filter.manual[idfin] = False\n"
+         "                        ds.apply_filter()\n",
+         "                        _exclude_event(ds, idfin)\n").replace(
+         "                ds.filter.manual[idfin] = False\n"
+         "                ds.apply_filter()\n",
+         "                _exclude_event(ds, idfin)\n")),
+]
+
+MUTANTS = list(MUTANTS) + [
+    ("boundary filter helper excludes without applying the filter", COMMON,
+     lambda s: s.replace(
+         "def skip_empty_image_events(",
+         "def _exclude_event(ds, index):\n"
+         "    ds.filter.manual[index] = False\n\n\n"
+         "def skip_empty_image_events(").replace(
+         "            ds.filter.manual[0] = False\n"
+         "            ds.apply_filter()\n",
+         "            _exclude_event(ds, 0)\n"), "R8.8"),
 ]
